@@ -1,4 +1,5 @@
 import DaeVerif.C01.Model
+import DaeVerif.C01.Position
 import DaeVerif.Common.Proto
 /-!
 Line-protocol driver for C01.  Stateful: a `prog` line installs the current program, `pkt` lines
@@ -150,7 +151,7 @@ def step (st : St) (line : String) : St × String :=
     | some p =>
       -- both the compiled-level scan and the source-level specification are evaluated; they are
       -- proved equal (Props.match_is_first_match), the driver prints the scan and flags any difference
-      let a := matchM st.prog p
+      let a := matchAt st.rules st.fb p   -- incremental build + evaluation by position, as the code does
       let b := firstMatchS p st.rules st.fb false
       (st, outStr a ++ (if a == some b then "" else " SPEC-DIFFERS " ++ outStr (some b)))
     | none => (st, "bad-op")
